@@ -433,3 +433,7 @@ func VerifC13_EnsureRoutesAndFinalise() {
 // backend before the canary Service may be removed) are the same obligations as C13's, run under those properties too.
 func VerifC03_GatewayStepShare()               { VerifC13_WeightStep() }
 func VerifC04_GatewayFinaliseWithdrawsCanary() { VerifC13_EnsureRoutesAndFinalise() }
+
+// C07: re-applying a step does not change the route again (no endless rewrite): same obligations as C13's fixed points.
+func VerifC07_GatewayMatchStepReachesFixedPoint() { VerifC13_MatchStep() }
+func VerifC07_GatewayWeightStepReachesFixedPoint() { VerifC13_WeightStep() }
